@@ -38,7 +38,8 @@ SEARCH_RULE = ('DKW band eps_n = sqrt(ln(2/delta)/(2n)), delta = 1e-9.  Required
 PARTIAL = ['consistency_partial: the DKW-band closeness of the fitted CDF to the generating/empirical CDF is a statistical '
            'statement about the sample and scipy\'s optimisers (fmin for the MLE families, SLSQP for TruncatedGaussian); no Lean '
            'theorem, checked by the search experiment only',
-           'kde_pdf_integrates: not proved (the executable kernel uses a 20-digit decimal for 1/sqrt(2 pi)); non-negativity is',
+           'kde_pdf_integrates is proved for the exact constant 1/sqrt(2 pi); the executable kernel uses a 20-digit decimal for it '
+           '(the difference is below the 1e-10 tolerance of the numeric tie)',
            'bounded families "no mass outside the fitted support" for Beta/Uniform/truncnorm is a property of scipy.stats cdfs: '
            'proved only as the support arithmetic (uniform_support, truncated_support), cdf values checked in search']
 ASSUMPTIONS = ['scipy.stats.<dist>.fit returns (shapes in <dist>.shapes order, loc, scale) and is deterministic '
